@@ -206,8 +206,8 @@ Definition verify_nodata_nsec3_gen (fx : bool) (q : rname) (qtype qclass : N) (r
            end
   end.
 
-(* the variant that describes the tree under test (fix.patch applied or not) *)
-Definition verify_nodata_nsec3 := verify_nodata_nsec3_gen fix_nodata_nsec3.
+(* the code since fix 130ba3b (fx = false is the code before it) *)
+Definition verify_nodata_nsec3 := verify_nodata_nsec3_gen true.
 
 (* VerifyDelegationForZoneWithWork (no class check) *)
 Definition verify_delegation_nsec3 (d : rname) (recs : list nsec3) (signer : rname) (tab : htab) : err :=
